@@ -19,17 +19,22 @@ func init() {
 		Doc: "transport goes totally silent at a tape-chosen instant with 0..N+3 messages queued at that moment (idle / sending / full window with a blocked Send), in half of the runs after the connection has been through - and recovered from - a blackout on a full window that lasted longer than the ping interval; both endpoints must fail their calls within the bound",
 	})
 	simrt.Register(&simrt.Scenario{
-		Prop: "C13", Name: "idle-healthy", Count: tiered(400, 160000),
+		Prop: "C13", Name: "idle-healthy", Count: tiered(300, 160000),
 		Run: c13Idle, MaxOps: 6 << 20, Horizon: 14 * time.Hour,
 		Doc: "fault-free link with round-trip latency below the pong timeout, idle for up to 12 virtual hours (occasional traffic): keepalive must never close it",
 	})
 	simrt.Register(&simrt.Scenario{
-		Prop: "C13", Name: "idle-lost-ack", Count: tiered(250, 160000),
+		Prop: "C13", Name: "idle-lost-ack", Count: tiered(150, 160000),
 		Run: func(rc *simrt.RunCtx) { c13IdleX(rc, "lost-ack") }, MaxOps: 6 << 20, Horizon: 14 * time.Hour,
 		Doc: "as idle-healthy on a fast link that loses an isolated ACK now and then (at most one per 15 s and direction; resend timeout 100-400 ms, pong timeout 2-5 s): the peer answers the retransmitted ping with a NACK well inside the pong timeout, keepalive must not close the connection",
 	})
 	simrt.Register(&simrt.Scenario{
-		Prop: "C13", Name: "idle-resonant", Count: tiered(1000, 480000),
+		Prop: "C13", Name: "full-window-lost-acks", Count: tiered(300, 160000),
+		Run: func(rc *simrt.RunCtx) { c13IdleX(rc, "lost-ack-burst") }, MaxOps: 6 << 20, Horizon: 14 * time.Hour,
+		Doc: "a live peer on a fast, otherwise fault-free link; the client fills its send window and the acknowledgements of exactly that burst are lost; the resend timeout is 1-3 x (ping + pong), so that for a while only the keepalive talks to the peer: it must find the peer alive (a probe has to be sent and is answered at once), not close the connection",
+	})
+	simrt.Register(&simrt.Scenario{
+		Prop: "C13", Name: "idle-resonant", Count: tiered(800, 480000),
 		Run: func(rc *simrt.RunCtx) { c13IdleX(rc, "resonant") }, MaxOps: 6 << 20, Horizon: 14 * time.Hour,
 		Doc: "as idle-healthy, with windows of 1-3 packets (the pings themselves fill the window), equal ping intervals on both sides, one-way latency a multiple of ping/8 and a pong timeout between the round trip and ping + round trip: ping ticks, pong expiries and packet arrivals fall on the same virtual instants, the tape orders them",
 	})
@@ -253,10 +258,13 @@ func c13Dead(rc *simrt.RunCtx) {
 func c13Idle(rc *simrt.RunCtx) { c13IdleX(rc, "") }
 
 func c13IdleX(rc *simrt.RunCtx, mode string) {
-	resonant, lostAck := mode == "resonant", mode == "lost-ack"
+	resonant, lostAck, burst := mode == "resonant", mode == "lost-ack", mode == "lost-ack-burst"
 	ns := []uint8{1, 2, DefaultN, 254}
 	if resonant {
 		ns = []uint8{1, 2, 3}
+	}
+	if burst {
+		ns = []uint8{1, 2, 3, 5, DefaultN}
 	}
 	n := ns[rc.Pick(len(ns), "knob.n")]
 	tkC, tkS := c13Knobs(rc)
@@ -283,6 +291,18 @@ func c13IdleX(rc *simrt.RunCtx, mode string) {
 		tkC.static, tkS.static = true, true
 		tkC.resend = []time.Duration{100 * time.Millisecond, 400 * time.Millisecond}[rc.Pick(2, "knob.lresc")]
 		tkS.resend = []time.Duration{100 * time.Millisecond, 400 * time.Millisecond}[rc.Pick(2, "knob.lress")]
+		lat = time.Duration(1+rc.Pick(20, "net.latfast")) * time.Millisecond
+	}
+	if burst {
+		// a resend timeout that is long compared with ping + pong: after
+		// the acknowledgements of a full window got lost, nothing but the
+		// keepalive itself will talk to the (live, fast) peer for a while
+		tkC.static, tkS.static = true, true
+		tkC.resend = (tkC.ping + tkC.pong) * time.Duration(1+rc.Pick(3, "knob.bres"))
+		tkS.resend = tkC.resend
+		// (the peer's own pings would count as signs of life: they come
+		// rarely here)
+		tkS.ping = tkC.ping + tkC.pong + time.Duration(2+rc.Pick(20, "knob.bpings"))*time.Second
 		lat = time.Duration(1+rc.Pick(20, "net.latfast")) * time.Millisecond
 	}
 	rc.Knob("N", n)
@@ -312,7 +332,7 @@ func c13IdleX(rc *simrt.RunCtx, mode string) {
 	// sometimes the transport's write call returns late - after the packet,
 	// and possibly its acknowledgement, have already travelled
 	var lag time.Duration
-	if rc.Pick(3, "net.sendlag") == 0 && !lostAck {
+	if rc.Pick(3, "net.sendlag") == 0 && !lostAck && !burst {
 		lag = time.Duration(1+rc.Pick(int(3*lat/time.Millisecond)+1, "net.sendlagms")) * time.Millisecond
 		if lag > tkC.pong/2 {
 			lag = tkC.pong / 2
@@ -367,6 +387,32 @@ func c13IdleX(rc *simrt.RunCtx, mode string) {
 	}
 	if resonant || lostAck {
 		total = 1200 * minPing
+	}
+	if burst {
+		total = 40 * (tkC.ping + tkC.pong + tkC.resend)
+		// the client fills its window (and tries to send a little more);
+		// every acknowledgement of that burst is lost, then the link is fine
+		from := rc.Now()
+		np.s2c.mu.Lock()
+		np.s2c.filter = func(b []byte, now time.Duration) (byte, time.Duration) {
+			if len(b) > 0 && (b[0] == ACK || b[0] == NACK) && now-from < tkC.ping/2 {
+				rc.Probe("c13.burst-ack-lost")
+				return 'x', 0
+			}
+			return 0, 0
+		}
+		np.s2c.mu.Unlock()
+		k := int(n) + rc.Pick(3, "wl.burst-extra")
+		wg.Add(1)
+		go func() {
+			defer wg.Done()
+			for i := 0; i < k; i++ {
+				if cli.Send(mkMsg('A', 9000+i, 30)) != nil {
+					return
+				}
+			}
+		}()
+		rc.Fault("ack-burst-lost")
 	}
 	rc.Sample("N=%d client[%v] server[%v] one-way latency %v write-call lag %v idle for %v", n, tkC, tkS, lat, lag, total)
 	start := rc.Now()
